@@ -1376,3 +1376,46 @@ func TestRunnerLoop(t *testing.T) {
 	}
 	t.Logf("histories=%d events=%d", nh, r.n)
 }
+
+// TestRunnerProbeDefaultBackoff is not part of the check: it prints what the production function returns for the
+// DEFAULT manifest after n consecutive base decisions (used for the observations in checks/runnerstage.mutations.txt).
+func TestRunnerProbeDefaultBackoff(t *testing.T) {
+	if os.Getenv("VERIF_PROBE") == "" {
+		t.Skip("VERIF_PROBE not set")
+	}
+	ctx0, cancel := context.WithCancel(context.Background())
+	defer cancel()
+	w := newWorld(t, ctx0)
+	m := manifest.LocalDevnetManifest()
+	m.NetworkName = netName
+	m.BootstrapEpoch = bootE + finality
+	m.EC.Finality = finality
+	m.PubSub.CompressionEnabled = false
+	m.CatchUpAlignment = 0
+	ctx, clk := clock.WithMockClock(ctx0)
+	clk.Set(T0)
+	cs, err := certstore.CreateStore(ctx, ds_sync.MutexWrap(datastore.NewMapDatastore()), 0, w.table)
+	if err != nil {
+		t.Fatal(err)
+	}
+	var crts []*certs.FinalityCertificate
+	for k := 0; k < 14; k++ {
+		c := w.mkCert(uint64(k), bootE, bootE) // every decision is the base alone
+		if err := cs.Put(ctx, c); err != nil {
+			t.Fatal(err)
+		}
+		crts = append(crts, c)
+	}
+	backend := &linEC{period: m.EC.Period, table: w.table}
+	backend.setHead(bootE, T0.Add(time.Duration(bootE)*m.EC.Period), false)
+	run, _, err := f3.VerifNewRunnerOut(ctx, cs, backend, w.ps, w.ver, m, filepath.Join(t.TempDir(), "wal"), w.pid)
+	if err != nil {
+		t.Fatal(err)
+	}
+	base := T0.Add(time.Duration(bootE) * m.EC.Period)
+	t.Logf("default manifest: period=%v multiplier=%v table=%v", m.EC.Period, m.EC.DelayMultiplier, m.EC.BaseDecisionBackoffTable)
+	for _, c := range crts {
+		t.Logf("certificate %2d (base decision, %2d earlier ones in a row after the initial instance): start = finalized tipset + %v",
+			c.GPBFTInstance, max(0, int(c.GPBFTInstance)-1), run.ComputeNextInstanceStart(c).Sub(base))
+	}
+}
